@@ -105,6 +105,10 @@ DamageClauses(s, e, t) ==
             d.res = "ok" =>
                 IF d.via = "cat-file-t"
                 THEN d.cid = d.id     \* the kind printed for an id is the kind of the intact object stored under it (the harness sets cid = id then)
-                ELSE ((d.kind = "blob" /\ BlobIdOf(d.c) = d.id) \/ (d.kind \in {"tree", "commit"} /\ d.cid = d.id)))
+                ELSE ((d.kind = "blob" /\ BlobIdOf(d.c) = d.id) \/ (d.kind \in {"tree", "commit"} /\ d.cid = d.id))),
+    (* damage to an object file does not change which commits the history consists of: if log still succeeds it lists *)
+    (* what it listed before the damage - a history cut short at a damaged commit is wrong data, not an error           *)
+    Cl("C19_LogWhole", {"C19"}, "logids" \in DOMAIN e /\ "log" \in DOMAIN e.results /\ e.results["log"] = "ok",
+        ("logids" \in DOMAIN e /\ "log" \in DOMAIN e.results /\ e.results["log"] = "ok") => e.logids = e.goodlogids)
     >>
 =============================================================================
